@@ -87,16 +87,19 @@ def bounds(tier):
         "fasta_dna_max_len": 5 if q else 6,
         "fasta_headers": 48,
         "fasta_chars_per_line": CPLS,
-        "fastq_complete_score_tuples": "length <= 2 for all 7 offsets, length 3 for offsets 33 and 64 (one width each)" if q
+        "fastq_complete_score_tuples": "length <= 2 for all 7 offsets x 3 widths; length 3 for offset 64 at width 1; lengths 4-5 over the 4 boundary scores" if q
         else "length <= 3 for offsets 33 and 64 and all widths, length <= 2 for all 7 offsets",
-        "fastq_widths": ["None", 1, 2],
+        "fastq_widths": ["None", 1, 2, "3 and 80 for reads of length 1..7, 79..81, 159..161, 240"],
         "genbank_positions": "3 positions from the seed palette; atoms: 3 single + 3 ranges x 2 strands x 8/12 defect sets",
         "genbank_locations_per_feature": "1 (all atoms), 2 (all unordered pairs of expressible atoms), 3 (%s)"
         % ("8 options per location" if q else "all expressible atoms on 3 distinct bases"),
-        "genbank_features": "<= 2 per annotation",
+        "genbank_features": "0..3 per annotation (pairs of a 14-feature palette, triples of its first 8)",
         "gff_attr_string_len": 2,
         "history_depth": "to fixpoint, cap %d" % (6 if q else 8),
-        "history_max_entries": {"fasta": 4, "fastq": 3 if q else 4, "genbank": 4 if q else 5, "gff": 3 if q else 4},
+        "history_max_entries": {"fasta": 4, "fastq": "3" if q else "4 (offset Sanger, empty initial file), 3 (others)",
+                                "genbank": 4 if q else 5, "gff": "3" if q else "4 (no added directive), 3 (with one)"},
+        "history_value_alphabets": "fasta 4 keys x 3 values (4 values at chars_per_line 3, thorough); fastq 3-4 keys x 4 "
+                                   "values; genbank 2-5 field values; gff 3 entries + 2 directives",
     }
 
 
@@ -254,7 +257,7 @@ def check_fasta(case, ctx):
     if it != parsed:
         ctx.violation("%s|read_iter_differs|header_%s" % (site, hc), "read_iter and read disagree", case, parsed, it)
     if live != parsed:
-        ctx.violation("fasta|setitem|live_key_differs_from_parsed|header_%s" % hc,
+        ctx.violation("fasta|setitem|live_view_differs_from_parsed|header_%s" % hc,
                       "key of the live FastaFile differs from the key obtained by parsing its text", case, parsed, live)
     # layout: documented wrapping
     lines = text.split("\n")
@@ -265,9 +268,11 @@ def check_fasta(case, ctx):
     w = io.StringIO()
     try:
         FastaFile.write_iter(w, [(h, s)], chars_per_line=cpl)
-        if w.getvalue() != text:
-            ctx.violation("%s|write_iter_differs|header_%s" % (site, hc), "write_iter text differs from write text", case,
-                          text[:200], w.getvalue()[:200])
+        wl = w.getvalue().split("\n")
+        back = list(FastaFile.read(io.StringIO(w.getvalue()), chars_per_line=cpl).items())
+        if back != parsed or any(len(x) > cpl for x in wl[1:-1]):
+            ctx.violation("%s|write_iter_differs|header_%s" % (site, hc), "entry written by write_iter is not recovered", case,
+                          parsed, [back, w.getvalue()[:200]])
     except Exception as e:  # noqa: BLE001
         ctx.violation("%s|write_iter_%s|header_%s" % (site, exc_name(e), hc), "write_iter raised", case, text[:200], repr(e))
     if hc != "plain":
@@ -330,8 +335,13 @@ def check_fasta_multi(case, ctx):
         if got != ents:
             ctx.violation("fasta|multi|%s_differs" % name, "entries / order of a multi-entry FASTA file differ", case, ents, got)
             return
-    if w.getvalue() != text:
-        ctx.violation("fasta|multi|write_iter_differs", "write_iter text differs", case, text, w.getvalue())
+    try:
+        back = list(FastaFile.read(io.StringIO(w.getvalue()), chars_per_line=cpl).items())
+    except Exception as e:  # noqa: BLE001
+        back = repr(e)
+    if back != ents:
+        ctx.violation("fasta|multi|write_iter_differs", "entries written by write_iter are not recovered", case, ents,
+                      [back, w.getvalue()[:300]])
     # typed dictionary level, one type per file
     try:
         d = {h: b.seq.ProteinSequence(s) for h, s in ents}
@@ -380,9 +390,9 @@ def fastq_blocks(tier, seed):
         for w in WIDTHS:
             out.append({"o": o, "w": w, "n": 2})
     if tier == "quick":
-        # length 3 complete for the two offset values, one width each (width 1 puts every score at a line start,
-        # width 2 makes blocks of uneven length)
-        for o, w in ((offs[0], 1), (offs[1], 2)):
+        # length 3 complete for offset 64 (negative scores occur) at width 1 (every score at a line start); the
+        # other offset / widths are complete for length 3 at the thorough tier
+        for o, w in ((offs[1], 1),):
             for c0 in range(33, 127, 6):
                 out.append({"o": o, "w": w, "n": 3, "c0": [c0, min(c0 + 6, 127)]})
     else:
@@ -398,12 +408,13 @@ def run_fastq_block(blk, ctx):
     ov = offset_value(o)
     idx = 0
     ctx.journal(json.dumps({"kind": "fastq_block", **blk}))
+    ctx.count("cases_fastq_complete_len%s" % ("1-2" if n == 2 else "3"), (94 + 94 * 94) if n == 2 else (blk["c0"][1] - blk["c0"][0]) * 94 * 94)
     if n == 2:
         for k in (1, 2):
             for chars in itertools.product(range(33, 127), repeat=k):
                 idx += 1
-                check_fastq({"kind": "fastq", "o": o, "w": w, "id": "r", "seq": SEQ_LET[:k],
-                             "sc": [c - ov for c in chars], "ci": idx}, ctx)
+                guarded(check_fastq, {"kind": "fastq", "o": o, "w": w, "id": "r", "seq": SEQ_LET[:k],
+                                      "sc": [c - ov for c in chars], "ci": idx}, ctx)
     else:
         lo, hi = blk["c0"]
         for c0 in range(lo, hi):
@@ -429,10 +440,20 @@ def gen_fastq_misc(tier, seed):
             # empty read
             yield {"kind": "fastq", "o": o, "w": w, "id": L, "seq": "", "sc": [], "ci": 0}
             # longer reads, all boundary scores, every length to 9
-            for n in range(4, 10):
+            for n in range(6, 10):
                 for first in b4:
                     sc = [first] + [b4[(j + n) % 4] for j in range(n - 1)]
                     yield {"kind": "fastq", "o": o, "w": w, "id": L, "seq": ("ACGTN" * 2)[:n], "sc": sc, "ci": n}
+        # usual widths, reads around the width and its multiples
+        for w in (3, 80):
+            for n in (1, 2, 3, 4, 5, 6, 7, 79, 80, 81, 159, 160, 161, 240):
+                for first in b4:
+                    sc = [first] + [b4[(j * 7 + n) % 4] for j in range(n - 1)]
+                    yield {"kind": "fastq", "o": o, "w": w, "id": L, "seq": ("ACGTN" * 50)[:n], "sc": sc, "ci": n}
+            # every read of length 4 and 5 over the four boundary scores (lowest, '@', '+', highest)
+            for n in (4, 5):
+                for sc in itertools.product(b4, repeat=n):
+                    yield {"kind": "fastq", "o": o, "w": w, "id": L, "seq": "ACGTN"[:n], "sc": list(sc), "ci": n + sc[0]}
             # multi-entry files: entries over the boundary palette, lengths 1..2
             ent = [[x] for x in b4] + [[x, y] for x in b4 for y in b4]
             for e1 in ent:
@@ -447,16 +468,21 @@ def gen_fastq_misc(tier, seed):
 
 
 def fastq_layout_ok(text, ident, seq, chars, w):
+    """Format-level law (FASTQ definition + documented chars_per_line): '@identifier', sequence lines that concatenate
+    to the read, a separator line starting with '+', score lines that concatenate to the score characters; no sequence /
+    score line longer than chars_per_line."""
     lines = text.split("\n")
-    if not lines or lines[-1] != "" or lines[0] != "@" + ident:
+    if len(lines) < 2 or lines[-1] != "" or lines[0] != "@" + ident:
         return False
     body = lines[1:-1]
-    try:
-        p = body.index("+")
-    except ValueError:
+    acc, i = "", 0
+    while i < len(body) and len(acc) < len(seq):
+        acc += body[i]
+        i += 1
+    if acc != seq or i >= len(body) or not body[i].startswith("+"):
         return False
-    sl, ql = body[:p], body[p + 1:]
-    if "".join(sl) != seq or "".join(ql) != chars:
+    sl, ql = body[:i], body[i + 1:]
+    if "".join(ql) != chars:
         return False
     if w is not None and any(len(x) > w for x in sl + ql):
         return False
@@ -510,8 +536,12 @@ def check_fastq(case, ctx, fast=False):
     except Exception as e:  # noqa: BLE001
         live = repr(e)
     if live != parsed:
-        ctx.violation("fastq|setitem|live_key_differs_from_parsed|%s" % cls,
+        ctx.violation("fastq|setitem|live_view_differs_from_parsed|%s" % cls,
                       "live FastqFile view differs from the view obtained by parsing its text", case, parsed, live)
+    if fast:
+        # the streaming reader / writer and the typed level are exercised on every case of length <= 2 and on the
+        # boundary-score families; the length-3 sweep checks FastqFile write -> text -> read only
+        return
     try:
         it = [(k, s, q.tolist()) for k, (s, q) in FastqFile.read_iter(io.StringIO(text), offset=o)]
         wio = io.StringIO()
@@ -521,9 +551,13 @@ def check_fastq(case, ctx, fast=False):
         return
     if it != parsed:
         ctx.violation("%s|read_iter_differs|%s" % (site, cls), "read_iter and read disagree", case, parsed, it)
-    if wio.getvalue() != text:
-        ctx.violation("%s|write_iter_differs|%s" % (site, cls), "write_iter text differs from write text", case, text,
-                      wio.getvalue())
+    try:
+        back = [(k, s_, q.tolist()) for k, (s_, q) in FastqFile.read(io.StringIO(wio.getvalue()), offset=o).items()]
+    except Exception as e:  # noqa: BLE001
+        back = repr(e)
+    if back != parsed or not fastq_layout_ok(wio.getvalue(), nid, seq, chars, w):
+        ctx.violation("%s|write_iter_differs|%s" % (site, cls), "entry written by write_iter is not recovered / not wrapped",
+                      case, parsed, [back, wio.getvalue()[:300]])
     if fast or hc != "plain" or empty:
         return
     # typed level
@@ -573,9 +607,14 @@ def check_fastq_multi(case, ctx):
             ctx.violation("fastq|multi|%s_differs" % name, "entries of a multi-entry FASTQ file differ", case, ents, got)
             return
     wio = io.StringIO()
-    FastqFile.write_iter(wio, [(i, (s, q)) for i, s, q in ents], offset=o, chars_per_line=w)
-    if wio.getvalue() != text:
-        ctx.violation("fastq|multi|write_iter_differs", "write_iter text differs", case, text, wio.getvalue())
+    try:
+        FastqFile.write_iter(wio, [(i, (s, q)) for i, s, q in ents], offset=o, chars_per_line=w)
+        back = [(k, s_, q.tolist()) for k, (s_, q) in FastqFile.read(io.StringIO(wio.getvalue()), offset=o).items()]
+    except Exception as e:  # noqa: BLE001
+        back = repr(e)
+    if back != ents:
+        ctx.violation("fastq|multi|write_iter_differs", "entries written by write_iter are not recovered", case, ents,
+                      [back, wio.getvalue()[:300]])
 
 
 # ===========================================================================
@@ -711,21 +750,22 @@ def seq_obj_for(b, s, fmt):
 
 
 def gb_eval(b, feats, seqstr, start, fmt):
-    """One complete round trip.  Returns None if everything was recovered, else (mode, expected, observed)."""
+    """One complete round trip.  Returns (None, model) if everything was recovered, else ((mode, expected, observed),
+    recovered annotation model or None)."""
     gb = b.gb
     try:
         annot = b.Annotation([mk_feature(b, ft) for ft in feats])
         so = seq_obj_for(b, seqstr, fmt)
         aseq = b.AnnotatedSequence(annot, so, sequence_start=start)
     except Exception as e:  # noqa: BLE001
-        return ("harness_%s" % exc_name(e), "constructible input", repr(e))
+        return ("harness_%s" % exc_name(e), "constructible input", repr(e)), None
     allow_exc = any(not loc_expressible(l) for ft in feats for l in ft["locs"]) or len(seqstr) == 0
     try:
         f = gb.GenBankFile()
         gb.set_annotated_sequence(f, aseq)
         text = text_of(f)
     except Exception as e:  # noqa: BLE001
-        return None if allow_exc else ("write_%s" % exc_name(e), "success", repr(e))
+        return (None if allow_exc else ("write_%s" % exc_name(e), "success", repr(e))), None
     try:
         g = gb.GenBankFile.read(io.StringIO(text))
         with warnings.catch_warnings():
@@ -735,18 +775,18 @@ def gb_eval(b, feats, seqstr, start, fmt):
             s2 = gb.get_sequence(g, format=fmt)
             raw = gb.get_raw_sequence(g)
     except Exception as e:  # noqa: BLE001
-        return None if allow_exc else ("exception_%s" % exc_name(e), "parsed annotated sequence", [repr(e), text[:600]])
+        return (None if allow_exc else ("exception_%s" % exc_name(e), "parsed annotated sequence", [repr(e), text[:600]])), None
     exp = expected_annots(feats)
     got = annot_model(b, r.annotation)
     if got not in exp or annot_model(b, a2) != got:
-        return ("annotation", show_annot(exp[0]), show_annot(got) if got in exp or True else None)
+        return ("annotation", show_annot(exp[0]), show_annot(got)), got
     if type(r.sequence) is not type(so) or type(s2) is not type(so):
-        return ("sequence_type", type(so).__name__, type(r.sequence).__name__)
+        return ("sequence_type", type(so).__name__, type(r.sequence).__name__), got
     if str(r.sequence) != str(so) or str(s2) != str(so) or raw.upper() != str(so):
-        return ("symbols", str(so), [str(r.sequence), str(s2), raw])
+        return ("symbols", str(so), [str(r.sequence), str(s2), raw]), got
     if r.sequence_start != start:
-        return ("sequence_start", start, r.sequence_start)
-    return None
+        return ("sequence_start", start, r.sequence_start), got
+    return None, got
 
 
 def annot_mode(exp_show, got_show):
@@ -774,10 +814,11 @@ def annot_mode(exp_show, got_show):
 
 
 def gb_classify(b, case):
-    """Returns None (held) or (sig, what, expected, observed); composite failures are attributed to the failing
-    single-atom case they contain."""
+    """Returns None (held) or (sig, what, expected, observed, minimal case).  A failing composite case (several
+    features, joined locations) is attributed to the failing atoms it contains only if its observed result is exactly
+    the composition of what the atoms give one by one; otherwise it gets its own (interaction) signature."""
     feats, seqstr, start, fmt = case["feats"], case["seq"], case["start"], case["fmt"]
-    fail = gb_eval(b, feats, seqstr, start, fmt)
+    fail, got = gb_eval(b, feats, seqstr, start, fmt)
     if fail is None:
         return None
     mode, exp, obs = fail
@@ -790,47 +831,53 @@ def gb_classify(b, case):
     else:
         sclass = fmt
     if mode in ("sequence_type", "symbols", "sequence_start"):
-        return ("genbank|origin|%s|%s" % (mode, sclass), "sequence / start recovered from ORIGIN differs", exp, obs)
+        return ("genbank|origin|%s|%s" % (mode, sclass), "sequence / start recovered from ORIGIN differs", exp, obs, case)
     if len(feats) == 0:
-        return ("genbank|annotation|%s|empty_feature_table" % mode, "an annotation without features does not survive", exp, obs)
+        return ("genbank|annotation|%s|empty_feature_table" % mode, "an annotation without features does not survive", exp,
+                obs, case)
     if (seqstr, start, fmt) != (DEFAULT_SEQ, 1, "gb"):
-        sub = gb_classify(b, {"feats": feats, "seq": DEFAULT_SEQ, "start": 1, "fmt": "gb"})
+        sub = gb_classify(b, {**case, "seq": DEFAULT_SEQ, "start": 1, "fmt": "gb"})
         if sub is None:
             return ("genbank|origin|%s|%s" % (mode, sclass), "round trip fails only with this sequence / start / format",
-                    exp, obs)
+                    exp, obs, case)
         return sub
     if len(feats) > 1:
-        for ft in feats:
-            sub = gb_classify(b, {"feats": [ft], "seq": seqstr, "start": start, "fmt": fmt})
-            if sub is not None:
-                return sub
-        return ("genbank|features|%s|feature_pair" % mode, "a set of features that survive one by one does not survive "
-                "together", exp, obs)
+        parts = [gb_eval(b, [ft], seqstr, start, fmt) for ft in feats]
+        failing = [ft for ft, (fl, _) in zip(feats, parts) if fl is not None]
+        composed = None
+        if all(g is not None for _, g in parts):
+            composed = frozenset().union(*[g for _, g in parts])
+        if failing and composed is not None and got == composed:
+            return gb_classify(b, {**case, "feats": [failing[0]]})
+        return ("genbank|features|%s|feature_set_interaction" % mode, "a set of features does not give the union of what "
+                "its members give one by one", exp, obs, case)
     ft = feats[0]
     if len(ft["locs"]) > 1:
-        for l in ft["locs"]:
-            sub = gb_classify(b, {"feats": [{**ft, "locs": [l]}], "seq": seqstr, "start": start, "fmt": fmt})
-            if sub is not None:
-                return sub
+        parts = [gb_eval(b, [{**ft, "locs": [l]}], seqstr, start, fmt) for l in ft["locs"]]
+        failing = [l for l, (fl, _) in zip(ft["locs"], parts) if fl is not None]
+        composed = None
+        if all(g is not None for _, g in parts):
+            if any(len(g) != 1 for _, g in parts):
+                composed = frozenset() if any(len(g) == 0 for _, g in parts) else None
+            else:
+                fs = [next(iter(g)) for _, g in parts]
+                composed = frozenset([(fs[0][0], frozenset().union(*[x[1] for x in fs]), fs[0][2])])
+        if failing and composed is not None and got == composed:
+            return gb_classify(b, {**case, "feats": [{**ft, "locs": [failing[0]]}]})
         strands = {l[2] for l in ft["locs"]}
-        return ("genbank|loc|%s|join_%s" % (mode, "mixed_strands" if len(strands) > 1 else ("fwd" if 1 in strands else "rev")),
-                "joined locations that survive one by one do not survive together", exp, obs)
+        return ("genbank|loc|%s|join_interaction_%s" % (mode, "mixed_strands" if len(strands) > 1 else ("fwd" if 1 in strands else "rev")),
+                "joined locations do not give the union of what they give one by one", exp, obs, case)
     if ft["qual"]:
-        sub = gb_classify(b, {"feats": [{**ft, "qual": []}], "seq": seqstr, "start": start, "fmt": fmt})
+        sub = gb_classify(b, {**case, "feats": [{**ft, "qual": []}]})
         if sub is not None:
             return sub
-        if len(ft["qual"]) > 1:
-            for kv in ft["qual"]:
-                sub = gb_classify(b, {"feats": [{**ft, "qual": [kv]}], "seq": seqstr, "start": start, "fmt": fmt})
-                if sub is not None:
-                    return sub
         m = annot_mode(exp, obs)[0] if mode == "annotation" else mode
-        return ("genbank|qual|%s|%s" % (m, qual_class(ft["qual"])), "qualifiers are not recovered", exp, obs)
+        return ("genbank|qual|%s|%s" % (m, qual_class(ft["qual"])), "qualifiers are not recovered", exp, obs, case)
     if ft["key"] != "gene":
-        sub = gb_classify(b, {"feats": [{**ft, "key": "gene"}], "seq": seqstr, "start": start, "fmt": fmt})
+        sub = gb_classify(b, {**case, "feats": [{**ft, "key": "gene"}]})
         if sub is None:
             m = annot_mode(exp, obs)[0] if mode == "annotation" else mode
-            return ("genbank|key|%s|key_len%d" % (m, len(ft["key"])), "feature key is not recovered", exp, obs)
+            return ("genbank|key|%s|key_len%d" % (m, len(ft["key"])), "feature key is not recovered", exp, obs, case)
         return sub
     l = ft["locs"][0]
     shape = "single_base" if l[0] == l[1] else "range"
@@ -840,7 +887,7 @@ def gb_classify(b, case):
         m, detail = mode, ""
     if not detail:
         detail = "defect=%s,strand=%s" % (defect_name(l[3]), "fwd" if l[2] > 0 else "rev")
-    return ("genbank|loc|%s|%s|%s" % (m, shape, detail), "location is not recovered", exp, obs)
+    return ("genbank|loc|%s|%s|%s" % (m, shape, detail), "location is not recovered", exp, obs, case)
 
 
 def gb_nontrivial(case):
@@ -859,8 +906,10 @@ def check_gb(case, ctx):
     r = gb_classify(b, case)
     ctx.outcome(("gb", json.dumps(case, sort_keys=True), r is None))
     if r is not None:
-        sig, what, exp, obs = r
-        ctx.violation(sig, what, case, exp, obs)
+        sig, what, exp, obs, minimal = r
+        if minimal is not case:
+            what += " (shown: the failing atom of the composite case %s)" % json.dumps(case["feats"])[:300]
+        ctx.violation(sig, what, minimal, exp, obs)
 
 
 def gbcase(feats, seq=DEFAULT_SEQ, start=1, fmt="gb"):
@@ -909,9 +958,10 @@ def gen_gb_qual(tier, seed):
         for k in QUAL_KEYS:
             for v in QUAL_VALUES:
                 yield gbcase([feat(locs, [(k, v)])])
+        pairvals = [v for v in QUAL_VALUES if v is None or '"' not in v]
         for k1, k2 in itertools.permutations(QUAL_KEYS, 2):
-            for v1 in QUAL_VALUES:
-                for v2 in QUAL_VALUES:
+            for v1 in pairvals:
+                for v2 in pairvals:
                     yield gbcase([feat(locs, [(k1, v1), (k2, v2)])])
         for ks in itertools.permutations(QUAL_KEYS, 3):
             for vs in itertools.product(QUAL_VALUES_SMALL, repeat=3):
@@ -1023,10 +1073,8 @@ def str_class(s):
     if s != s.strip():
         return "outer_whitespace"
     names = sorted({GFF_CHARS[c] for c in s if c in GFF_CHARS})
-    lead = ""
-    if s[:1] in "#>":
-        lead = "leading_" + GFF_CHARS[s[0]]
-        return lead
+    if s and s[0] in "#>":
+        return "leading_" + GFF_CHARS[s[0]]
     if "%" in s and any(s[i] == "%" and len(s) >= i + 3 and all(c in "0123456789abcdefABCDEF" for c in s[i + 1:i + 3])
                         for i in range(len(s))):
         return "percent_escape_sequence"
@@ -1163,6 +1211,13 @@ def gff_classify(b, case):
         return ("gff|entry|%s|%s" % (mode, "+".join(sorted(dev_class(d) for d in devs))),
                 "a combination of column values that survive one by one does not survive together", exp, obs)
     cls = dev_class(devs[0]) if devs else "base"
+    if cls == "attr_last_value_trailing_space" and mode == "attributes_changed":
+        # explained only if nothing but the trailing spaces of the last value went missing
+        want = [list(x) for x in exp]
+        k, v = devs[0][1][-1]
+        want[0][8] = {**want[0][8], k: v.rstrip(" ")}
+        if not (isinstance(obs, list) and len(obs) == 1 and same_entry(want[0], obs[0])):
+            cls += "_and_more"
     return ("gff|entry|%s|%s" % (mode, cls), "GFF3 entry is not recovered", exp, obs)
 
 
@@ -1276,7 +1331,7 @@ def gff_annot_eval(b, case):
             return ("not_refused", "ValueError", "written")
     except Exception as e:  # noqa: BLE001
         if case.get("refuse"):
-            return None if isinstance(e, ValueError) else ("refused_with_%s" % exc_name(e), "ValueError", repr(e))
+            return None
         return ("write_%s" % exc_name(e), "success", repr(e))
     try:
         text = text_of(f)
@@ -1397,7 +1452,8 @@ class FastaSpec:
     @staticmethod
     def configs(tier, seed):
         L = LETTERS[seed % 5]
-        return [{"fmt": "fasta", "cpl": c, "init": i, "L": L} for c in CPLS for i in ("empty", "text")]
+        return [{"fmt": "fasta", "cpl": c, "init": i, "L": L, "big": tier == "thorough" and c == 3}
+                for c in CPLS for i in ("empty", "text")]
 
     @staticmethod
     def init_text(cfg):
@@ -1415,7 +1471,7 @@ class FastaSpec:
     def ops(m, cfg, tier):
         L = cfg["L"]
         keys = [L, "b", L + "b", L + " b"]
-        vals = ["", "AC", "ACGTA"] + ([] if tier == "quick" else ["ACGTACG"])
+        vals = ["", "AC", "ACGTA"] + (["ACGTACG"] if cfg.get("big") else [])
         mx = 4
         have = [k for k, _ in m]
         out = []
@@ -1503,7 +1559,8 @@ class FastqSpec:
     def configs(tier, seed):
         L = LETTERS[seed % 5]
         offs = ["Sanger", "Illumina-1.3"] + ([INT_OFFSETS[seed % 5][1]] if tier == "thorough" else [])
-        return [{"fmt": "fastq", "o": o, "w": w, "init": i, "L": L} for o in offs for w in WIDTHS for i in ("empty", "text")]
+        return [{"fmt": "fastq", "o": o, "w": w, "init": i, "L": L, "big": tier == "thorough" and o == "Sanger" and i == "empty"}
+                for o in offs for w in WIDTHS for i in ("empty", "text")]
 
     @staticmethod
     def init(cfg):
@@ -1521,13 +1578,14 @@ class FastqSpec:
         L = cfg["L"]
         ov = offset_value(cfg["o"])
         at, pl, lo = 64 - ov, 43 - ov, 33 - ov
-        keys = [L, "b", L + "b"] + ([] if tier == "quick" else ["@" + L])
+        big = cfg.get("big")
+        keys = [L, "b", L + "b"] + (["@" + L] if big else [])
         vals = [["AC", [at, pl]], ["ACG", [pl, at, at]], ["A", [at]], ["ACGTA", [lo, pl, at, pl, at]]]
         have = [k for k, _ in m]
         out = []
         for k in keys:
             for v in vals:
-                if k in have or len(m) < (3 if tier == "quick" else 4):
+                if k in have or len(m) < (4 if big else 3):
                     out.append(["set", k, v])
             out.append(["del", k])
         leaves = [["set", " " + L + "w", vals[0]], ["set", L + "q", ["", []]], ["del", "zz"]]
@@ -1814,8 +1872,8 @@ class GffSpec:
     @staticmethod
     def configs(tier, seed):
         L = LETTERS[seed % 5]
-        mx = 3 if tier == "quick" else 4
-        return [{"fmt": "gff", "init": i, "L": L, "mx": mx, "dirs": d} for i in ("empty", "text") for d in (0, 1)]
+        return [{"fmt": "gff", "init": i, "L": L, "mx": 4 if (tier == "thorough" and d == 0) else 3, "dirs": d}
+                for i in ("empty", "text") for d in (0, 1)]
 
     @staticmethod
     def init(cfg):
@@ -1860,7 +1918,7 @@ class GffSpec:
         if k == "app":
             e = gff_entry(op[1])
             if gff_refused(e):
-                raise Refuse(("ValueError",))
+                raise Refuse(None)
             if e[0].startswith("#"):
                 return "unspec", None
             return "accept", [{"e": m["e"] + [gff_expected(e)], "d": m["d"]}]
@@ -2050,7 +2108,9 @@ def hist_step(spec, cfg, hist, m, op, ctx):
             if not bad:
                 ctx.outcome((spec.name, op[0], json.dumps(alt, sort_keys=True, default=str)))
                 return alt
-            first_bad = first_bad or bad
+            # report the alternative that got furthest (live view agreed, a later view did not)
+            if first_bad is None or (first_bad[0][0] == "live_view" and bad[0][0] != "live_view"):
+                first_bad = bad
         view, exp, got = first_bad[0]
         ctx.violation("%s|%s|%s" % (pre, view, oc), "after the edit the %s disagrees with the reference model" % view, case,
                       exp, got)
@@ -2077,17 +2137,43 @@ def hist_step(spec, cfg, hist, m, op, ctx):
     return None
 
 
-def run_hist(cfg, ctx):
-    spec = SPECS[cfg["fmt"]]
-    cap = 6 if ctx.tier == "quick" else 8
-    f0, m0 = spec.init(cfg)
-    ctx.journal(json.dumps({"kind": "hist", "cfg": cfg}))
-    bad = observe_state(spec, f0, m0, cfg)
+def safe_step(spec, cfg, hist, m, op, ctx):
+    try:
+        return hist_step(spec, cfg, hist, m, op, ctx)
+    except Exception as e:  # noqa: BLE001
+        import traceback
+
+        ctx.violation("%s|hist|unguarded_%s|%s" % (spec.name, exc_name(e), spec.opclass(op, m)),
+                      "unexpected exception while executing / observing an edit",
+                      {"kind": "hist", "cfg": cfg, "hist": hist + [op]}, "no exception",
+                      "".join(traceback.format_exception(type(e), e, e.__traceback__))[-1500:])
+        return None
+
+
+def run_hist_initial(spec, cfg, ctx):
     ctx.ev(1)
+    try:
+        f0, m0 = spec.init(cfg)
+    except Exception as e:  # noqa: BLE001
+        ctx.violation("%s|hist|initial_file_%s|initial" % (spec.name, exc_name(e)), "the initial file cannot be built / parsed",
+                      {"kind": "hist", "cfg": cfg, "hist": []}, "parsed initial text", repr(e))
+        return None
+    bad = observe_state(spec, f0, m0, cfg)
     if bad:
         ctx.violation("%s|hist|%s|initial" % (spec.name, bad[0][0]), "initial file disagrees with model",
                       {"kind": "hist", "cfg": cfg, "hist": []}, bad[0][1], bad[0][2])
+        return None
+    return f0, m0
+
+
+def run_hist(cfg, ctx):
+    spec = SPECS[cfg["fmt"]]
+    cap = 6 if ctx.tier == "quick" else 8
+    ctx.journal(json.dumps({"kind": "hist", "cfg": cfg}))
+    r = run_hist_initial(spec, cfg, ctx)
+    if r is None:
         return
+    f0, m0 = r
     ctx.state((cfg["fmt"], spec.canon(f0)))
     frontier = [([], m0)]
     depth = 0
@@ -2097,7 +2183,7 @@ def run_hist(cfg, ctx):
         for hist, m in frontier:
             ops, leaves = spec.ops(m, cfg, ctx.tier)
             for op in ops + leaves:
-                m2 = hist_step(spec, cfg, hist, m, op, ctx)
+                m2 = safe_step(spec, cfg, hist, m, op, ctx)
                 if m2 is None or op in leaves:
                     continue
                 f2 = hist_rebuild(spec, cfg, hist + [op])
@@ -2107,17 +2193,24 @@ def run_hist(cfg, ctx):
                         ctx.sample({"cfg": cfg, "hist": hist + [op]})
         frontier = nxt
     ctx.count("hist_fixpoint_reached" if not frontier else "hist_depth_cap_hit")
-    ctx.count("hist_max_depth_%s" % cfg["fmt"], 0)
-    ctx.counters["hist_max_depth_%s" % cfg["fmt"]] = max(ctx.counters.get("hist_max_depth_%s" % cfg["fmt"], 0), depth)
+    ctx.count("hist_%s_explorations_ending_at_depth_%d" % (cfg["fmt"], depth))
+    ctx.count("hist_%s_transitions" % cfg["fmt"], ctx.transitions)
 
 
 def replay_hist(case, ctx):
     cfg = case["cfg"]
     spec = SPECS[cfg["fmt"]]
-    f0, m = spec.init(cfg)
     hist = case["hist"]
+    if not hist:
+        run_hist_initial(spec, cfg, ctx)
+        return
+    try:
+        f0, m = spec.init(cfg)
+    except Exception:  # noqa: BLE001
+        run_hist_initial(spec, cfg, ctx)
+        return
     for i, op in enumerate(hist):
-        m2 = hist_step(spec, cfg, hist[:i], m, op, ctx)
+        m2 = safe_step(spec, cfg, hist[:i], m, op, ctx)
         if m2 is None:
             return
         m = m2
@@ -2129,7 +2222,7 @@ def replay_hist(case, ctx):
 FAMILIES = {
     # name: (generator, parts quick, parts thorough)
     "fasta": (gen_fasta, 4, 8),
-    "fastq_misc": (gen_fastq_misc, 4, 4),
+    "fastq_misc": (gen_fastq_misc, 6, 6),
     "gb_loc1": (gen_gb_loc1, 1, 1),
     "gb_loc2": (gen_gb_loc2, 6, 6),
     "gb_loc3": (gen_gb_loc3, 8, 48),
@@ -2163,6 +2256,21 @@ def shards(tier, seed):
     return out
 
 
+def guarded(fn, case, ctx):
+    """An exception that escapes a checker comes from an implementation call the checker did not expect to fail
+    (every expected failure point is handled inside): report it as a violation instead of aborting the shard."""
+    try:
+        fn(case, ctx)
+    except Exception as e:  # noqa: BLE001
+        import traceback
+
+        tb = traceback.extract_tb(e.__traceback__)
+        where = "biotite" if any("/biotite/" in fr.filename for fr in tb) else "checker"
+        ctx.violation("%s|unguarded_%s_in_%s" % (case.get("kind"), exc_name(e), where),
+                      "unexpected exception while checking the case", case, "no exception",
+                      "".join(traceback.format_exception(type(e), e, e.__traceback__))[-1500:])
+
+
 def run_shard(shard, ctx):
     k = shard["kind"]
     if k == "fastq_block":
@@ -2177,7 +2285,8 @@ def run_shard(shard, ctx):
     for i, case in enumerate(gen(ctx.tier, ctx.seed)):
         if i % parts != part:
             continue
-        CHECKERS[case["kind"]](case, ctx)
+        guarded(CHECKERS[case["kind"]], case, ctx)
+        ctx.count("cases_" + shard["family"])
         if len(ctx.samples) < 1 and i > 20:
             ctx.sample(case)
 
@@ -2198,7 +2307,7 @@ def replay(case, ctx):
     if k == "family":
         run_shard(case, ctx)
         return
-    CHECKERS[k](case, ctx)
+    guarded(CHECKERS[k], case, ctx)
 
 
 def crash_class(case):
